@@ -969,6 +969,9 @@ func checkReplicaAttach(c *Ctx, rule string) {
 			}
 		}
 		lk, _ := a.Base.(*ssa.Lookup)
+		if ex, isEx := a.Base.(*ssa.Extract); isEx && ex.Index == 0 {
+			lk, _ = ex.Tuple.(*ssa.Lookup) // comma-ok form
+		}
 		if elem == nil || lk == nil {
 			c.Undecided(rule, site, st.Pos(), "cannot identify the appended replica or the master lookup")
 			continue
